@@ -38,7 +38,7 @@ from litex.soc.cores.clock import xilinx_s7, xilinx_s6, xilinx_us, xilinx_usp, l
 from litex.soc.cores.clock.xilinx_common import XilinxClocking
 
 MODP = "litex.soc.cores.clock."
-FEAS_TIMEOUT_MS = 20000          # per path-feasibility query; `unknown` keeps the path (sound), obligations are decided by _decide (60 s + portfolio)
+FEAS_TIMEOUT_MS = 4000           # per path-feasibility query; `unknown` keeps the path (sound), obligations are decided by _decide (60 s + portfolio)
 MAX_PATHS = 4000
 
 class Unsupported(Exception): pass
@@ -400,6 +400,11 @@ class MathX(MathShim):
                 ka = _fresh_int("gcdk"); _assume(at == g.t * ka.t); _assume(z3.Implies(at != 0, g.t >= 1))
             return g
 _FR = [0]
+def _sym_pow(self, e, *m):
+    if isinstance(e, int) and not isinstance(e, bool) and 0 <= e <= 4 and not m: return _c_pow(self, e)
+    raise Unsupported("proxy ** exponent")
+def _sym_rpow(self, b, *m): raise Unsupported("base ** proxy")
+if not hasattr(SymInt, "__pow__"): SymInt.__pow__ = _sym_pow; SymInt.__rpow__ = _sym_rpow
 def _fresh_int(name): _FR[0] += 1; return SymInt(z3.Int(f"{name}!c{_FR[0]}"))
 def _c_int(x, *a):
     """int(): truncation towards zero"""
@@ -493,7 +498,8 @@ def prove_complete(label, setup, fn_real, spec_keys, replay=None, extra_globals=
     badx = [r for r in crashed if r[1] == z3.sat]
     info = dict(paths_completed=ex["done"], paths_ended=ex["ended"], refusing_paths=len(refused), refusing_paths_infeasible=len([r for r in refused if r[1] == z3.unsat]),
                 feasibility_queries=ex["queries"], undecided_feasibility_queries=ex["unknown_queries"],
-                loops={str(k): v for k, v in infos.items()})
+                loops={str(k): v for k, v in infos.items()},
+                witness_not_in_real_iterable=sorted({infos[k[1]]["target"] for k in log if k[0] == "witness-not-in-real-iterable"}))
     def try_replays(rs):
         """native replays of up to 3 counter-models (as found, then planted); first genuine counterexample wins"""
         last = ("ok", "no model", {})
@@ -540,8 +546,6 @@ def prove_complete(label, setup, fn_real, spec_keys, replay=None, extra_globals=
         r, _ = _decide(e["pc"])
         if r == z3.sat: okd = True; break
     cover("paths-dropped-by-exhaustion", okd, events={f"{infos[k[1]]['target']}:{k[2]}": e["count"] for k, e in dropped})
-    nm = [k for k in log if k[0] == "witness-not-in-real-iterable"]
-    if nm: out.append(res(f"{label}.info.witness-not-in-real-iterable", "info", OK, 0, "", loops=[infos[k[1]]["target"] for k in nm]))
     if returned: cover("return-reachable", any(r[1] == z3.sat for r in returned), paths=len(returned))
     ex2 = explore(run_with(False))
     cover("refusal-reachable-without-witness-facts", any(r[0] == "refused" and r[1] == z3.sat for r in ex2["results"]) and not ex2["faults"], paths=ex2["done"], info="; ".join(ex2["faults"])[:300])
@@ -560,20 +564,28 @@ def _members(rng):
     x = lo
     while x < hi: yield x; x += st
 
+def _first_member_within(rng, vco, f, m):
+    """smallest member d of the declared range with |vco/d - f| <= f*m (exact rationals; f > 0, m >= 0), or None"""
+    lo, hi = fractions.Fraction(rng[0]), fractions.Fraction(rng[1]); st = fractions.Fraction(rng[2]) if len(rng) > 2 else fractions.Fraction(1)
+    dmin = vco / (f * (1 + m))                         # vco/d <= f*(1+m)
+    k = max(0, math.ceil((dmin - lo) / st))
+    d = lo + k * st
+    if d >= hi or d <= 0: return None
+    return d if abs(vco / d - f) <= f * m else None    # the next members are larger: vco/d only moves further below f*(1-m) once it is below
+
 def _xil_exists(pll, fin, outs, vm):
     """independent exhaustive search over the DECLARED ranges, exact rational arithmetic; returns a setting or None"""
     fin = fractions.Fraction(fin); vmin, vmax = (fractions.Fraction(v) for v in pll.vco_freq_range); vm = fractions.Fraction(vm)
+    outs = [(fractions.Fraction(f), fractions.Fraction(m)) for f, m in outs]
     for D in range(*pll.divclk_divide_range):
         for M in range(*pll.clkfbout_mult_frange):
             vco = fin * M / D
             if not (vmin * (1 + vm) <= vco <= vmax * (1 - vm)): continue
             ds = []
             for n, (f, m) in enumerate(outs):
-                f, m = fractions.Fraction(f), fractions.Fraction(m); got = None
+                got = None
                 for rng in _xil_ranges(pll, n):
-                    # |vco/d - f| <= f*m  <=>  vco/(f*(1+m)) <= d <= vco/(f*(1-m))   (f > 0)
-                    for d in _members(rng):
-                        if abs(vco / d - f) <= f * m: got = d; break
+                    got = _first_member_within(rng, vco, f, m)
                     if got is not None: break
                 if got is None: break
                 ds.append(got)
@@ -621,41 +633,57 @@ def c_xilinx(clsname, speedgrade, nout, sym_vco_margin=False):
             return d if tuple(L["d_range"]) == rng else None
         specs = {"divclk_divide": dict(witness=lambda vc, L: D), "clkfbout_mult": dict(witness=lambda vc, L: M), "d": dict(witness=wit_d)}
         return pll, specs, terms
-    def replay(v):
+    def replay(v, planted):
         fin = float(v["fin"]); outs = [(float(v[f"f{n}"]), float(v[f"m{n}"])) for n in range(nout)]; vm = float(v.get("vco_margin", 0))
-        pll, cfg = _xil_native(cls, speedgrade, fin, outs, vm)
+        if planted: outs = [(fin * int(v["W_M"]) / int(v["W_D"]) / float(v[f"W_d{n}"]), 1e-12) for n in range(nout)]
+        try: pll, cfg = _xil_native(cls, speedgrade, fin, outs, vm)
+        except Exception as e: return "crash", f"{clsname}(speedgrade={speedgrade}) clkin={fin!r} outs={outs!r}: compute_config raised {type(e).__name__}: {e}"
         ex = _xil_exists(pll, fin, outs, vm)
-        return (cfg is None and ex is not None), f"{clsname}(speedgrade={speedgrade}) clkin={fin!r} outs={outs!r} vco_margin={vm!r}: compute_config {'raised ValueError' if cfg is None else 'returned'}; independent search: {ex}"
+        return ("refused-though-a-setting-exists" if cfg is None and ex is not None else "ok",
+                f"{clsname}(speedgrade={speedgrade}) clkin={fin!r} outs={outs!r} vco_margin={vm!r}: compute_config {'raised ValueError' if cfg is None else 'returned'}; independent exact search over the declared ranges: {ex}")
     out = prove_complete(label, setup, XilinxClocking.compute_config, ["divclk_divide", "clkfbout_mult", "d"], replay=replay)
     return dict(results=out, functions=[MODP + "xilinx_common.XilinxClocking.compute_config", MODP + "common.clkdiv_range (real generator, materialised)"],
                 samples=[dict(function=f"{clsname}.compute_config", theorem="ens.complete", witness="rigid D*, M*, d*_n in the declared ranges")])
 
 def c_xilinx_bounded(seed=0):
-    """bounded cross-check: random requests, the real classes under plain CPython against the independent exact search"""
-    rnd = random.Random(1234 + seed); bad = []; evals = 0; refused = 0
+    """bounded cross-check, real classes under plain CPython: (1) random requests against the independent exact search (both directions),
+    (2) PLANTED requests: a random setting of the declared ranges (boundary members over-represented) is chosen first and the request
+    is what that setting produces (margin 1e-9) - refusing such a request is always wrong"""
+    rnd = random.Random(1234 + seed); bad = []; evals = 0; refused = 0; planted = 0
     t0 = time.time()
+    def edge(lo, hi_incl): return rnd.choice([lo, hi_incl, rnd.randint(lo, hi_incl), rnd.randint(lo, hi_incl)])
     for clsname, cls in XIL.items():
         for trial in range(8):
-            sg = rnd.choice([-1, -2, -3]) if clsname not in ("USPLL", "USMMCM", "USPPLL") else rnd.choice([-1, -2, -3])
-            try: probe = cls(speedgrade=sg)
-            except KeyError: sg = -1; probe = cls(speedgrade=sg)
+            sg = rnd.choice([-1, -2, -3])
             fin = rnd.choice([12e6, 19e6, 25e6, 50e6, 100e6, 125e6, 200e6, 33.333e6])
-            nout = rnd.choice([1, 2])
             outs = []
-            for n in range(nout):
-                kind = rnd.random()
-                if kind < 0.4: f = rnd.choice([4.7e6, 5e6, 6.25e6, 12.288e6, 24.576e6, 48e6, 74.25e6, 148.5e6, 400e6, 800e6, 1200e6])
-                else: f = rnd.uniform(4e6, 900e6)
+            for n in range(rnd.choice([1, 2])):
+                f = rnd.choice([4.7e6, 5e6, 6.25e6, 12.288e6, 24.576e6, 48e6, 74.25e6, 148.5e6, 400e6, 800e6, 1200e6]) if rnd.random() < 0.4 else rnd.uniform(4e6, 900e6)
                 outs.append((f, rnd.choice([0, 1e-6, 1e-4, 1e-3, 1e-2])))
             evals += 1
             pll, cfg = _xil_native(cls, sg, fin, outs, 0)
             ex = _xil_exists(pll, fin, outs, 0)
             if cfg is None: refused += 1
             if (cfg is None) != (ex is None):
-                # float rounding at a margin boundary is outside the model: only report when the exact search finds a setting with slack
                 bad.append((clsname, sg, fin, outs, "refused although a setting exists" if cfg is None else "returned although the exact search finds none", ex))
-    return dict(results=[res("ens.complete[Xilinx, 6 classes x 8 random requests]", "bounded", BOUNDED_OK if not bad else VIOLATED, time.time() - t0, "independent exact exhaustive search",
-                             evaluations=evals, refused=refused, info=str(bad[:2]))],
+        for trial in range(40):
+            sg = rnd.choice([-1, -2, -3]); probe = cls(speedgrade=sg)
+            D = edge(probe.divclk_divide_range[0], probe.divclk_divide_range[1] - 1); M = edge(probe.clkfbout_mult_frange[0], probe.clkfbout_mult_frange[1] - 1)
+            vmin, vmax = probe.vco_freq_range
+            vco = rnd.choice([vmin * (1 + 1e-6), vmax * (1 - 1e-6), rnd.uniform(vmin, vmax)])
+            fin = vco * D / M; vco = fin * M / D
+            if not (vmin <= vco <= vmax): continue
+            outs = []; ds = []
+            for n in range(rnd.choice([1, 2, 3])):
+                rng = rnd.choice(_xil_ranges(probe, n)); mem = list(_members(rng))
+                d = rnd.choice([mem[0], mem[-1], rnd.choice(mem), rnd.choice(mem)]); d = int(d) if d.denominator == 1 else float(d)
+                ds.append(d); outs.append((vco / d, 1e-9))
+            evals += 1; planted += 1
+            pll, cfg = _xil_native(cls, sg, fin, outs, 0)
+            if cfg is None:
+                refused += 1; bad.append((clsname, sg, fin, outs, "refused although the planted setting satisfies it", dict(D=D, M=M, d=ds)))
+    return dict(results=[res("ens.complete[Xilinx, 6 classes x (8 random + 40 planted requests)]", "bounded", BOUNDED_OK if not bad else VIOLATED, time.time() - t0, "independent exact search / planted settings",
+                             evaluations=evals, planted=planted, refused=refused, info=str(bad[:2])[:900])],
                 functions=[], samples=[dict(bounded="completeness cross-check", evaluations=evals, refused=refused)])
 
 def cases(tier):
